@@ -51,6 +51,14 @@ when it outgrew the threshold -/
 def SinkInv (buf : Nat) (sk : Sink) : Prop :=
   sk.size = sk.body.length ∧ sk.isTemp = decide (sk.size > buf)
 
+/-- the accumulator `_body_read` returns for a body `b` under threshold `buf`: the bytes, and
+file-backed exactly when longer than the threshold -/
+def bodyOf (buf : Nat) (b : Bytes) : Sink :=
+  { body := b, size := b.length, isTemp := decide (b.length > buf) }
+
+theorem bodyOf_eq (buf : Nat) (b : Bytes) : bodyOf buf b = Sink.extend buf {} b := by
+  simp [bodyOf, Sink.extend]
+
 theorem SinkInv.init (buf : Nat) : SinkInv buf {} := by simp [SinkInv]
 
 theorem Sink.extend_nil (buf : Nat) (sk : Sink) (h : SinkInv buf sk) : sk.extend buf [] = sk := by
